@@ -28,6 +28,12 @@ MANIFEST = dict(
          "fault schedules, end-to-end real server)",
     ref="6/C04")
 
+LEVEL = "proof"
+EXPLANATION = ("claimed partial: proof over the models of the framing decision, header serialisation, chunk encoder, "
+               "URL encoders and the socket writer for every descriptor / schedule; what the kernel does inside "
+               "write/writev/sendfile beyond its return value, TLS modules, and the order of responses on a connection "
+               "(connection state machine) are covered by the end-to-end stream only")
+
 DATE_T = 784111777
 DATE_S = b"Sun, 06 Nov 1994 08:49:37 GMT"
 
@@ -589,7 +595,7 @@ def client(port, data, sched=None, total_timeout=30.0, segs=None):
         chunk = sched[2] if sched else 262144
         pause = sched[3] if sched else 0
         end = time.time() + total_timeout
-        s.settimeout(4.5)
+        s.settimeout(10)
         while time.time() < end:
             try:
                 d = s.recv(chunk)
